@@ -20,6 +20,8 @@ macro_rules! registry {
 }
 
 registry! {
+    "C06" => c06,
+    "C07" => c07,
     "C11" => c11,
     "C12" => c12,
     "C18" => c18,
